@@ -410,16 +410,29 @@ def p6b(repo, res):
     res.require(fn is not None, "anchor vanished: BaseGeo._init_position_orientation")
     lens = {}
     for s_ in ast.walk(fn):
-        if isinstance(s_, ast.Assign) and len(s_.targets) == 1 and isinstance(s_.targets[0], ast.Name):
-            t = ast.unparse(s_.value)
-            if t.endswith(".shape[0]") or t.startswith("len("):
-                lens[s_.targets[0].id] = t
+        if isinstance(s_, ast.Assign) and len(s_.targets) == 1:
+            pairs = [(s_.targets[0], s_.value)]
+            if isinstance(s_.targets[0], ast.Tuple) and isinstance(s_.value, ast.Tuple) and len(s_.targets[0].elts) == len(s_.value.elts):
+                pairs = list(zip(s_.targets[0].elts, s_.value.elts))         # `len_pos, len_ori = pos.shape[0], oriQ.shape[0]`
+            for tg, val in pairs:
+                t = ast.unparse(val)
+                if isinstance(tg, ast.Name) and (t.endswith(".shape[0]") or t.startswith("len(")):
+                    lens[tg.id] = t
     covered = set()
     lit_branches = []
     for iff in ast.walk(fn):
         if isinstance(iff, ast.If) and isinstance(iff.test, ast.Compare) and len(iff.test.ops) == 1:
             a, b, op = iff.test.left, iff.test.comparators[0], iff.test.ops[0]
-            pads = any(isinstance(c, ast.Call) and getattr(c.func, "attr", "") in ("pad", "tile", "repeat", "concatenate") for c in ast.walk(ast.Module(body=iff.body, type_ignores=[])))
+            def pad_call(c, depth=1):
+                if not isinstance(c, ast.Call):
+                    return False
+                if getattr(c.func, "attr", "") in ("pad", "tile", "repeat", "concatenate"):
+                    return True
+                if depth and isinstance(c.func, ast.Name):        # a padding helper of the package (pad_slice_path)
+                    r = repo.resolve_name(geo.mod, c.func.id)
+                    return bool(r and r[0] == "func" and any(pad_call(x, depth - 1) for x in ast.walk(r[2])))
+                return False
+            pads = any(pad_call(c) for c in ast.walk(ast.Module(body=iff.body, type_ignores=[])))
             if not pads:
                 continue
             if isinstance(a, ast.Name) and isinstance(b, ast.Name) and {a.id, b.id} <= set(lens):
